@@ -31,7 +31,7 @@ THEOREMS = ["Builder.sim", "Builder.documented_eq_bound_partial", "Builder.kind_
             "Builder.documented_eq_bound_inherited_counterexample_old", "Builder.documented_eq_bound_tail_counterexample",
             "Builder.documented_eq_bound_rebinding_counterexample", "Builder.documented_eq_bound_overload_counterexample",
             "Builder.maybeAttribute_eq_find", "Builder.inheritedNonAttrOf_contains", "Builder.rel_put", "Builder.rel_updvar",
-            "Builder.documented_eq_bound_del_counterexample", "Builder.docstring_eq_docassign_counterexample",
+            "Builder.documented_eq_bound_del_counterexample", "Builder.docstring_eq_docassign_counterexample_old",
             "Builder.kind_eq_counterexample", "Builder.oldstyle_double_wrap_asserts", "Builder.isNameEqualsMain_iff",
             "Builder.recognised_not_taken", "Builder.near_misses_taken_and_entered",
             "Builder.documented_eq_bound_untaken_guard_counterexample",
@@ -60,7 +60,7 @@ ASSUMPTIONS = [
     "the lookup itself (Builder.findIn / maybeAttributeIn / inheritedNonAttrOf) is modelled, proved equal to the scope-level guard (maybeAttribute_eq_find) and tied to the real "
     "_maybeAttribute by the streams maybe-attribute (every call logged during the build) and kernel-find (exhaustive chains)",
     "unpacking assignments, self.x instance variables, augmented assignment, aliases (name = other_name), typing.Final/ClassVar and docstring fields of properties are outside the IR "
-    "(unpacking and non-literal shadowing are judged by deterministic probes on fixed modules; instance variables are generated but filtered from both sides)",
+    "(unpacking targets - documented since 8c6e5c4 - and non-literal shadowing are judged by deterministic probes on fixed modules; instance variables are generated but filtered from both sides)",
     "MRO membership = reachability through the base lists (linearisation is C05's layer); generated hierarchies are acyclic and importable",
     "names bound by imports, loop/with targets, submodules and self.x instance attributes are outside the compared set in both directions (DESIGN 4.5)",
     "inspect.cleandoc is modelled by Lineno.cleandoc (tied to CPython by C16's stream and again here through every generated docstring)",
@@ -71,9 +71,9 @@ PARTIAL = {
         "@x.setter/@x.deleter/@overload, bare annotations, decorators other than bare classmethod/staticmethod/property in a class (at most one per def) or identity "
         "decorators not named *property, definitions in else/finally parts, a class attribute assigned a NON-literal that shadows an inherited method/class, "
         "a `__name__` guard that pydoctor enters although it is not taken on import (or the reverse), `del`, `name.__doc__ = text` unless name is a plain function or class of the "
-        "namespace and inspect.cleandoc leaves the text unchanged, a second old-style wrapping. (The exception-table clause of inSubset is vacuous for the generated tables: "
-        "Builder.basesOk_generated.) Each excluded construct has a counterexample theorem; setter, bare annotation, non-literal inherited shadowing and uncleaned __doc__ "
-        "assignment are recorded open findings. Docstring (Builder.docstring_eq) and exception kind (Builder.exception_eq) carry no exclusion of their own since fcaa577 / 769cae3; "
+        "namespace (any text, since 6e624d0), a second old-style wrapping. (The exception-table clause of inSubset is vacuous for the generated tables: "
+        "Builder.basesOk_generated.) Each excluded construct has a counterexample theorem; setter, bare annotation and non-literal inherited shadowing "
+        "are recorded open findings. Docstring (Builder.docstring_eq) and exception kind (Builder.exception_eq) carry no exclusion of their own since fcaa577 / 769cae3; "
         "the former witnesses are kept as *_counterexample_old over labelled pre-fix definitions.",
     "Builder.kind_eq": "decorator lists accepted by Subset.decosOk (kind_eq_iff characterises agreement for all lists of evaluable decorators)",
 }
@@ -1579,7 +1579,7 @@ def run_batch(ctx: Ctx, batch, pyres) -> None:
     verdicts = ctx.driver.run_parallel(sub_reqs) if ctx.model_ok else ["out"] * len(sub_reqs)
     for v, (sc, pdinfo, pyinfo, files, inh, rq) in zip(verdicts, meta):
         ctx.count("subset:" + v)
-        if v == "in" and any(x - {"shadows-inherited", "string-after-property", "rebound-ok"} for x in sc.labels.values()):
+        if v == "in" and any(x - {"shadows-inherited", "string-after-property", "rebound-ok", "doc-assign-unclean"} for x in sc.labels.values()):
             # the generator's labels and the Lean predicate must agree on what is outside the subset
             ctx.disagree("subset-labels", {"scope": sc.qname, "labels": {k: sorted(x) for k, x in sc.labels.items()}, "files": files}, "in", "labelled")
         before = len(ctx.failures), sum(f["count"] for f in ctx.failures)
